@@ -581,6 +581,12 @@ func (b *broker) syncRemoveSession(subscriber *wamp.Session, quiet bool) {
 		// Remove subscribed session from subscription.
 		delete(sub.subscribers, subscriber)
 
+		// Fired when a session is removed from a subscription, here because
+		// the session left, as on an explicit UNSUBSCRIBE.
+		if !quiet {
+			b.syncPubSubMeta(wamp.MetaEventSubOnUnsubscribe, subscriber.ID, subID)
+		}
+
 		// If no more subscribers on this subscription, delete it unless it
 		// keeps event history.
 		if _, keep := b.eventHistoryStore[sub]; len(sub.subscribers) == 0 && !keep {
